@@ -131,8 +131,12 @@ class Workspace:
             return None
 
     def fresh(self, tag):
+        """unique content; every other one is not valid UTF-8 (object files, images ... are what build tools cache)"""
         self.counter += 1
-        return ("%s-v%d\n" % (tag, self.counter)).encode()
+        text = ("%s-v%d\n" % (tag, self.counter)).encode()
+        if self.counter % 2 == 0:
+            return b"\x7fELF\xff\xfe\x00\x80" + text + bytes([0xc3, 0x28, self.counter % 256])
+        return text
 
     def write_rules(self, rules):
         self.write("build.rules", "\n".join(r.text() for r in rules).encode())
